@@ -31,6 +31,8 @@ pub const SITES: &[(&str, usize, &str)] = &[
     ("cont-sample", 3, "(normal_distribution(0.0, 1.0).sample(2).len() + {K} - 2)"),
     ("random_choices", 3, "([1, 2, 3].random_choices(2).len() + {K} - 2)"),
     ("random_choices-weighted", 3, "([1, 2, 3].random_choices(2, [0.2, 0.3, 0.5]).len() + {K} - 2)"),
+    ("sample-long", 3, "(range(1000).sample(2).len() + {K} - 2)"),
+    ("sample-long-many", 3, "(range(100000).sample(40).len() + {K} - 40)"),
     ("sample-counts", 3, "([1, 2, 3].sample(2, [1, 1, 1]).len() + {K} - 2)"),
     ("regex", 4, "if(regex(\"a+b\").search(\"xaab\").has_value(), {K}, {K})"),
     ("sleep", 5, "sleep(seconds(0.25), {K})"),
@@ -153,7 +155,7 @@ pub fn make(spec: &JobSpec, ex: &mut Executor, out: &mut JobResult) -> Option<Bo
                 Some(Box::new(j))
             } else {
                 let mut j = TemplateJob::new(steps, "none", spec.seed, ex, out)?;
-                j.assignments = vec![sc.perms];
+                j.assignments = vec![(sc.perms, sc.perm_ops.clone())];
                 Some(Box::new(j))
             }
         }
@@ -185,7 +187,7 @@ struct TemplateJob {
     label: String,
     reference: RunResult,
     ref_effects: Vec<String>,
-    assignments: Vec<Perms>,
+    assignments: Vec<(Perms, Vec<(usize, bool)>)>,
 }
 
 fn all_on() -> Perms {
@@ -248,14 +250,14 @@ impl TemplateJob {
             out.notes.push(format!("{label}: reference value {:?}, template says {}", reference.main_outcome(), tpl.value));
         }
         let ref_effects = effects(&reference.log);
-        let mut asg: Vec<Perms> = vec![];
+        let mut asg: Vec<(Perms, Vec<(usize, bool)>)> = vec![];
         if assignments == "binary" || assignments == "ternary" {
             for m in 0..64u32 {
                 let mut p: Perms = [None; 6];
                 for (i, slot) in p.iter_mut().enumerate() {
                     *slot = Some(m & (1 << i) != 0);
                 }
-                asg.push(p);
+                asg.push((p, vec![]));
             }
         }
         if assignments == "ternary" {
@@ -275,12 +277,12 @@ impl TemplateJob {
                     x /= 3;
                 }
                 if has_unset {
-                    asg.push(p);
+                    asg.push((p, vec![]));
                 }
             }
         } else if assignments == "binary" {
             // documented defaults: everything unset, plus seeded partially-unset assignments
-            asg.push([None; 6]);
+            asg.push(([None; 6], vec![]));
             let mut rng = Prng::new(seed);
             for _ in 0..8 {
                 let mut p: Perms = [None; 6];
@@ -291,7 +293,19 @@ impl TemplateJob {
                         _ => Some(false),
                     };
                 }
-                asg.push(p);
+                asg.push((p, vec![]));
+            }
+        }
+        if assignments == "binary" || assignments == "ternary" {
+            // the host changes its mind: allow then forbid, forbid then allow, per permission,
+            // on top of an all-on / all-unset / all-off base
+            for i in 0..6 {
+                for (first, second) in [(true, false), (false, true)] {
+                    for base in [Some(true), None, Some(false)] {
+                        asg.push(([base; 6], vec![(i, first), (i, second)]));
+                    }
+                }
+                asg.push(([None; 6], vec![(i, true), (i, true), (i, false), (i, false)]));
             }
         }
         if out.samples.len() < 2 {
@@ -310,25 +324,25 @@ fn is_on(p: &Perms, i: usize) -> bool {
 fn seam_invariants(sc: &Scenario, r: &RunResult) -> Vec<(String, String)> {
     let mut v = vec![];
     let c = &r.counters;
-    if !is_on(&sc.perms, 0) && c.unix_reads > 0 {
+    if !is_on(&sc.effective_perms(), 0) && c.unix_reads > 0 {
         v.push(("clock read although NOW is forbidden".to_string(), format!("{} reads of the injected time provider", c.unix_reads)));
     }
-    if !is_on(&sc.perms, 3) && (c.rng_new > 0 || c.rng_words > 0) {
+    if !is_on(&sc.effective_perms(), 3) && (c.rng_new > 0 || c.rng_words > 0) {
         v.push(("random source touched although RANDOM is forbidden".to_string(), format!("{} constructions, {} words drawn", c.rng_new, c.rng_words)));
     }
-    if !is_on(&sc.perms, 5) && c.sleeps > 0 {
+    if !is_on(&sc.effective_perms(), 5) && c.sleeps > 0 {
         v.push(("slept although SLEEP is forbidden".to_string(), format!("{} sleeps", c.sleeps)));
     }
     let text = String::from_utf8_lossy(&r.out).to_string();
     let digit_lines = text.lines().filter(|l| !l.is_empty() && l.chars().all(|ch| ch.is_ascii_digit())).count();
     let other_lines = text.lines().filter(|l| !l.is_empty() && !l.chars().all(|ch| ch.is_ascii_digit())).count();
-    if !is_on(&sc.perms, 1) && digit_lines > 0 {
+    if !is_on(&sc.effective_perms(), 1) && digit_lines > 0 {
         v.push(("display wrote although PRINT is forbidden".to_string(), format!("output {text:?}")));
     }
-    if !is_on(&sc.perms, 2) && other_lines > 0 {
+    if !is_on(&sc.effective_perms(), 2) && other_lines > 0 {
         v.push(("debug wrote although PRINT_DEBUG is forbidden".to_string(), format!("output {text:?}")));
     }
-    if !is_on(&sc.perms, 1) && !is_on(&sc.perms, 2) && c.writes > 0 {
+    if !is_on(&sc.effective_perms(), 1) && !is_on(&sc.effective_perms(), 2) && c.writes > 0 {
         v.push(("writer touched although PRINT and PRINT_DEBUG are forbidden".to_string(), format!("{} writes", c.writes)));
     }
     v
@@ -340,7 +354,8 @@ impl Job for TemplateJob {
     }
     fn scenario(&mut self, i: usize) -> Scenario {
         let mut sc = Scenario::standard(&self.tpl.text, Limits::calibration());
-        sc.perms = self.assignments[i];
+        sc.perms = self.assignments[i].0;
+        sc.perm_ops = self.assignments[i].1.clone();
         sc.env.record = true;
         sc.label = self.label.clone();
         sc
@@ -363,8 +378,8 @@ impl Job for TemplateJob {
             out.violate(violation(P, P, ("seam".into(), sig, detail), sc));
         }
         // prediction from the template's declared sites
-        let inst_off = self.tpl.inst_sites.iter().position(|p| !is_on(&sc.perms, *p));
-        let run_off = self.tpl.run_sites.iter().position(|p| !is_on(&sc.perms, *p));
+        let inst_off = self.tpl.inst_sites.iter().position(|p| !is_on(&sc.effective_perms(), *p));
+        let run_off = self.tpl.run_sites.iter().position(|p| !is_on(&sc.effective_perms(), *p));
         let (want, cut): (Outcome, Option<usize>) = if let Some(i) = inst_off {
             (Outcome::Violation(format!("PermissionError(\"{}\")", PERM_NAMES[self.tpl.inst_sites[i]])), Some(i))
         } else if let Some(i) = run_off {
@@ -381,7 +396,7 @@ impl Job for TemplateJob {
                 (Outcome::Violation(_), Outcome::Violation(_)) => "permission violation names the wrong permission",
                 _ => "wrong outcome",
             };
-            out.violate(violation(P, P, ("permission".into(), format!("{what} ({sites})"), format!("perms {:?}: expected {want:?}, got {got:?}", sc.perms)), sc));
+            out.violate(violation(P, P, ("permission".into(), format!("{what} ({sites})"), format!("perms {:?} then {:?}: expected {want:?}, got {got:?}", sc.perms, sc.perm_ops)), sc));
         }
         // effect trace: the reference trace up to the refused site, then the refusal
         let got_fx = effects(&r.log);
@@ -410,7 +425,7 @@ impl Job for TemplateJob {
                 sc,
             ));
         }
-        out.tuples.insert(format!("{sites}|{:?}|{}", sc.perms.map(|p| match p { None => 'u', Some(true) => '1', Some(false) => '0' }).iter().collect::<String>(), got.class()));
+        out.tuples.insert(format!("{sites}|{:?}{:?}|{}", sc.perm_ops, sc.perms.map(|p| match p { None => 'u', Some(true) => '1', Some(false) => '0' }).iter().collect::<String>(), got.class()));
         if cut.is_some() {
             out.probe("refused_site");
         }
@@ -419,6 +434,9 @@ impl Job for TemplateJob {
         }
         if sc.perms.iter().any(|p| p.is_none()) {
             out.probe("unset_permission_default_used");
+        }
+        if !sc.perm_ops.is_empty() {
+            out.probe("permission_changed_after_being_set");
         }
     }
 }
